@@ -4,7 +4,7 @@ SPEC = {
     "gen": ["atomicconsts"],
     "streams": [
         {"name": "failtx", "cmd": "failtx",
-         "args": {"quick": ["-cases", "320", "-per", "80"], "thorough": ["-cases", "5000", "-per", "100"]},
+         "args": {"quick": ["-cases", "360", "-per", "90"], "thorough": ["-cases", "5000", "-per", "100"]},
          "search_args": ["-cases", "3000", "-per", "100"]},
     ],
     "trusted_base": [
